@@ -240,6 +240,9 @@ def statements() -> list[tuple[str, Any]]:
     st('label set', lambda p: p.metadata.labels.__setitem__('l', 'v'))
     st('delete absent annotation', lambda p: p.metadata.annotations.__setitem__('stale', None))
     st('status set', lambda p: p.status.__setitem__('s', 1))
+    st('number -> equal boolean', lambda p: p.spec.__setitem__('x', True))      # 1 == True in Python, not in JSON
+    st('boolean -> equal number', lambda p: p.spec.__setitem__('b', 0))
+    st('fn: number -> boolean', lambda p: p.fns.append(lambda b: b['spec'].__setitem__('x', True) if isinstance(b.get('spec'), dict) and b['spec'].get('x') == 1 else None))
     st('fn: append finalizer', lambda p: p.fns.append(lambda b: b.setdefault('metadata', {}).setdefault('finalizers', []).append('x/y')))
     st('fn: drop spec.x', lambda p: p.fns.append(lambda b: b.get('spec', {}).pop('x', None) if isinstance(b.get('spec'), dict) else None))
     return S
@@ -248,17 +251,21 @@ def statements() -> list[tuple[str, Any]]:
 def objects() -> list[dict]:
     meta = {'name': 'a', 'namespace': 'ns', 'uid': 'u1'}
     return [
-        {'apiVersion': 'kopf.dev/v1', 'kind': 'KopfExample', 'metadata': dict(meta), 'spec': {'x': 1, 'm': {'k': 'v'}, 'l': [1]}},
+        {'apiVersion': 'kopf.dev/v1', 'kind': 'KopfExample', 'metadata': dict(meta), 'spec': {'x': 1, 'm': {'k': 'v'}, 'l': [1], 'b': False}},
         {'apiVersion': 'kopf.dev/v1', 'kind': 'KopfExample', 'metadata': dict(meta, annotations={'keep': 'me'}, finalizers=['a/b'])},
         {'apiVersion': 'kopf.dev/v1', 'kind': 'KopfExample', 'metadata': dict(meta), 'spec': {'x': {'k': 'old'}, 'm': 'scalar', 'l': {}}, 'status': {}},
     ]
 
 
 def prune_empty(x: Any) -> Any:
-    """Up to the presence of empty mappings."""
+    """Up to the presence of empty mappings; booleans are kept apart from the numbers Python equates them with."""
     if isinstance(x, dict):
         out = {k: prune_empty(v) for k, v in x.items()}
         return {k: v for k, v in out.items() if not (isinstance(v, dict) and not v)}
+    if isinstance(x, list):
+        return [prune_empty(v) for v in x]
+    if isinstance(x, bool):
+        return ('bool', x)
     return x
 
 
